@@ -7,7 +7,17 @@ HERE = os.path.dirname(os.path.abspath(__file__))
 BASELINE = ("cd /repo && /venv/bin/python -m pytest -ra -q -p no:cacheprovider --timeout=900 "
             "--continue-on-collection-errors --junitxml=/tmp/pandora-baseline.junit.xml")
 
-LEVELS = json.load(open(os.path.join(HERE, "manifest_levels.json")))
+LEVELS = {}
+for fn in sorted(os.listdir(os.path.join(HERE, "levels"))):
+    if fn.endswith(".json"):
+        LEVELS[fn[:-5]] = json.load(open(os.path.join(HERE, "levels", fn)))
+
+# known findings: one file per property under known_findings.d/, aggregated into known_findings.json
+findings = []
+for fn in sorted(os.listdir(os.path.join(HERE, "known_findings.d"))):
+    if fn.endswith(".json"):
+        findings.extend(json.load(open(os.path.join(HERE, "known_findings.d", fn)))["findings"])
+json.dump({"findings": findings}, open(os.path.join(HERE, "known_findings.json"), "w"), indent=1)
 props = [json.loads(l) for l in open(os.path.join(HERE, "properties.jsonl"))]
 checks = []
 na = []
